@@ -538,13 +538,16 @@ def plan (e : Env) (enc : Bytes → Bytes) : Op → Plan
           -- writer: temporary file removed) …
           withPath (tmpPath e counter) t2 fun tmp =>
           let t3 := t2 ++ [cr tmp, wr tmp] ++ pps.map rd ++ [rm tmp, ⟨.create, .dirChain (parentPath p)⟩, cr p, wr p]
-          -- … then the upload's metadata becomes the object's, the part files and the upload record are removed, and the
-          -- object is read back for the ETag
+          -- … then the upload's metadata becomes the object's (without any, the metadata file of the replaced object is
+          -- removed: cf67827), the checksum record is reset (cf67827), the part files and the upload record are removed,
+          -- and the object is read back for the ETag
           withPath (metadataPath e enc b k (some u)) t3 fun um =>
           let t4 := t3 ++ [rd um]
           withPath (metadataPath e enc b k none) t4 fun m =>
-          let t5 := t4 ++ [cr m, wr m, rm um] ++ pps.map rm
-          withPath (uploadInfoPath e u) t5 fun info => .ok (t5 ++ [rm info, rd p])
+          let t5 := t4 ++ [rd m, cr m, wr m, rm m, rm um]
+          withPath (internalInfoPath e enc b k) t5 fun i =>
+          let t6 := t5 ++ [cr i, wr i] ++ pps.map rm
+          withPath (uploadInfoPath e u) t6 fun info => .ok (t6 ++ [rm info, rd p])
   | .abortMultipartUpload b k uploadId =>
     match parseUuid uploadId with
     | none => .fail [] .noSuchUpload
